@@ -368,6 +368,20 @@ func treeShapes(c *genCtx) [][]byte {
 		add(" " + s + " ")
 		add(s + ",")
 	}
+	// sibling (and consecutive) objects and strings whose spellings are each other's encodings: the raw bytes of one
+	// key equal the *decoded* text of the key at the same position in the previous object, and the other way round
+	// (anything remembered about "the previous key / string" must be keyed on the same form it is compared with)
+	for _, raw := range []string{`a\nb`, `\u0041`, `\"`, `\\`, `\/`, `x\ty`, `\ud83d\ude00`, `k\u00e9`, `plain`} {
+		enc := strings.ReplaceAll(strings.ReplaceAll(raw, `\`, `\\`), `"`, `\"`)
+		for _, pr := range [][2]string{{enc, raw}, {raw, enc}, {raw, raw}} {
+			add(`{"` + pr[0] + `":1}`)
+			add(`{"` + pr[1] + `":2}`)
+			add(`[{"` + pr[0] + `":1},{"` + pr[1] + `":2}]`)
+			add(`{"x":{"p":0,"` + pr[0] + `":"` + pr[0] + `"},"y":{"p":0,"` + pr[1] + `":"` + pr[1] + `"}}`)
+			add(`["` + pr[0] + `","` + pr[1] + `"]`)
+			add(`[[{"` + pr[0] + `":[]}],[{"` + pr[1] + `":[]}]]`)
+		}
+	}
 	// boundary code points as escapes in values and keys, alone and after plain text (also on the reused reader)
 	for _, cp := range []int{0, 1, 0x1f, 0x20, 0x22, 0x5c, 0x7e, 0x7f, 0x80, 0x81, 0xff, 0x100, 0x7ff, 0x800, 0xfff, 0x1000, 0xd7ff, 0xd800, 0xdbff,
 		0xdc00, 0xdfff, 0xe000, 0xfffd, 0xfffe, 0xffff} {
